@@ -1,6 +1,6 @@
 #!/usr/bin/env python3
-"""Wire translator: Rust -> Gallina for the straight-line codec functions of
-crates/srtla-protocol (types.rs, parsers.rs, builders.rs).
+"""Wire translator: Rust -> Gallina for the codec functions of crates/srtla-protocol (types.rs,
+parsers.rs, builders.rs), and the return-value slice of a few methods that classify a frame (SLICE_FUNCS).
 
 On every run the CURRENT Rust source under $VERIF_REPO (default /repo) is parsed (the
 tokenizer/parser of gen_leaf.py, extended with hex literals, indexing, ranges, array
@@ -29,12 +29,21 @@ panic in Rust is sequenced exactly in Rust evaluation order:
   v.f (v : S)            nth k v 0
 
   while c { body }       a fuelled Fixpoint leaf_wire_<fn>_loop<k> over the `let mut` locals the body
-                         assigns (in declaration order; `break` = return the state), called with
-                         fuel S (length of the byte-slice parameters); out of fuel is `Fuel`
+                         (nested loops included) assigns, in declaration order; `break` = return the
+                         state of the innermost loop; a nested loop is its own Fixpoint, emitted first
+                         and called as a bind.  Initial fuel (a guess, never trusted -- out of fuel is
+                         `Fuel` and the lemma must show it is not reached): a conjunct `v.len() < K`
+                         gives S (K - len v), otherwise S (length of the byte-slice parameters)
+  for (i, &x) in v.iter().enumerate() { body }     a Fixpoint by structural recursion on v, i from 0
   v.push(e)              v' := v ++ [e]        SmallVec::new() / Vec::new(): []
+  vec![c; n]             repeat c (Z.to_nat n)           SmallVec::from_vec(v): v
+  d[i] = v               d' <- splice d i (i+1) [v] ;; ...
+  a &= b, a |= b         a := Z.land a b / Z.lor a b     a.wrapping_add(b): (a + b) mod 2^w
+  match e { Some(C) => .. None => .. _ => .. }     e : Option<int>; arms in order, `_` last
+  E::V (fieldless enum)  the constant E_V : Z (declaration index)
 
 `+ - *` between compile-time constants (literals, consts, unrolled loop variables) must stay in
-range; `+` / `-` on non-constant unsigned operands are CHECKED (`if a + b <? 2^w then .. else
+range; `+` / `-` / `*` on non-constant unsigned operands are CHECKED (`if a + b <? 2^w then .. else
 Oob`: overflow is the debug-build panic; the equivalence lemma carries the length bound that
 rules it out, so the wrapping release semantics agrees).  Anything outside
 the subset makes the translator FAIL for that function (JSON summary, "failed"); check.py
@@ -67,12 +76,21 @@ FUNCS = [
     ("extract_keepalive_timestamp", "parsers.rs"),
     ("extract_keepalive_conn_info", "parsers.rs"),
     ("parse_srtla_ack", "parsers.rs"),
+    ("parse_srt_nak", "parsers.rs"),
     ("create_reg1_packet", "builders.rs"),
     ("create_reg2_packet", "builders.rs"),
     ("create_keepalive_packet", "builders.rs"),
     ("create_keepalive_packet_ext", "builders.rs"),
+    ("create_ack_packet", "builders.rs"),
 ]
 STRUCT_FILES = ["types.rs"]
+# return-value slices of methods outside srtla-protocol: (rust fn, path under the repo root, impl type).  `self` is
+# dropped: statements of the form `self.method(pure args);` (the receiver's own bookkeeping) are skipped and listed
+# in the generated comment, any other use of `self` is an error; fieldless enums of the file become Z constants.
+SLICE_FUNCS = [
+    ("process_registration_packet", "crates/srtla-core/src/registration/mod.rs", "SrtlaRegistrationManager"),
+]
+ENUMS = {}          # enum name -> [variants] (fieldless enums of the slice files), values are `Name_Variant : Z`
 
 UNS = {"u8": 8, "u16": 16, "u32": 32, "u64": 64, "usize": 64}
 INTS = dict(UNS, i32=32)
@@ -163,6 +181,33 @@ class WP(P):
                 raise TErr("let-else not supported")
             self.expect(";")
             return ("let", name, e, ty, mut)
+        if v == "for" and self.peek(1)[1] in ("(", "&"):
+            # for (i, &x) in v.iter().enumerate() { .. }   /   for &x in v.iter() { .. }
+            self.take()
+            ivar = None
+            if self.eat("("):
+                ivar = self.ident()
+                self.expect(",")
+                self.expect("&")
+                xvar = self.ident()
+                self.expect(")")
+            else:
+                self.expect("&")
+                xvar = self.ident()
+            if self.take() != ("id", "in"):
+                raise TErr("for pattern")
+            coll = self.expr(no_struct=True)
+            if ivar is not None:
+                if not (coll[0] == "call" and coll[1] == "enumerate" and not coll[3]):
+                    raise TErr("for (i, &x): only over `.iter().enumerate()`")
+                coll = coll[2]
+            if not (coll[0] == "call" and coll[1] == "iter" and not coll[3]):
+                raise TErr("for &x: only over `.iter()`")
+            coll = coll[2]
+            self.expect("{")
+            body = self.block()
+            self.eat(";")
+            return ("foreach", ivar, xvar, coll, body)
         if v == "for":
             self.take()
             var = self.ident()
@@ -192,7 +237,20 @@ class WP(P):
             return ("break",)
         if v in ("loop", "continue", "unsafe", "fn", "const", "static", "use", "struct", "#"):
             raise TErr("statement `%s` not supported" % v)
-        return P.stmt(self)
+        if v in ("return", "if", "match"):
+            return P.stmt(self)
+        e = self.expr()
+        v2 = self.peek()[1]
+        if v2 in ("=", "+=", "-=", "*=", "&=", "|="):
+            self.take()
+            rhs = self.expr()
+            self.expect(";")
+            if v2 != "=":
+                rhs = ("bin", v2[0], e, rhs)
+            return ("assign", e, rhs)
+        if self.eat(";"):
+            return ("exprstmt", e)
+        return ("tail", e)
 
     def if_expr(self):
         if self.peek(1) == ("id", "let"):
@@ -255,6 +313,14 @@ class WP(P):
                 items.append(self.expr())
             self.expect("]")
             return ("array", items)
+        if k == "id" and v == "vec!" and self.peek(1)[1] == "[":
+            self.take()
+            self.take()
+            first = self.expr()
+            self.expect(";")
+            n = self.expr()
+            self.expect("]")
+            return ("vrepeat", first, n)
         if k == "id" and v.endswith("!"):
             raise TErr("macro %s in expression" % v)
         if k == "id" and v in ("for", "while", "loop", "break", "continue", "unsafe", "match", "move", "mut", "ref"):
@@ -303,9 +369,11 @@ def norm_type(t, cx):
     m = re.match(r"Option<(.+)>$", t)
     if m:
         return "Option<%s>" % norm_type(m.group(1), cx)
-    if t in cx.structs:
+    if t in cx.structs or t in ENUMS:
         return t
-    m = re.match(r"(?:SmallVec|Vec)<(\w+)(?:,[^>]*)?>$", t)
+    m = re.match(r"(?:SmallVec|Vec)<(\w+)(?:,[^>]*)?>$", t) or re.match(r"\[(\w+)\]$", t)
+    if m and m.group(1) == "u8":
+        return "[u8]"                                     # a byte vector is a byte list of unknown length
     if m and m.group(1) in INTS:
         return "Vec<%s>" % m.group(1)
     raise TErr("type %s not supported" % t)
@@ -339,7 +407,7 @@ def ev_const(e, cx):
 
 
 def coq_type(t):
-    if t in INTS:
+    if t in INTS or t in ENUMS:
         return "Z"
     if t == "bool":
         return "bool"
@@ -412,8 +480,11 @@ class Cx:
         self.used = set(RESERVED)
         self.tmp = "x"
         self.fn = None
-        self.loop = None          # inside a while body: {"name", "inv", "state", "fuel"}
-        self.loops = []           # emitted Fixpoints
+        self.loop = None          # innermost enclosing loop: {"name", "inv", "state", "rec"}
+        self.loops = []           # emitted Fixpoints (an inner loop before the loop that calls it)
+        self.nloops = 0
+        self.slice_self = False   # return-value slice of a method: `self.m(..);` statements are dropped
+        self.dropped = []
         self.fuel_params = []     # coq names of the byte-slice parameters (fuel bound)
 
     def fresh(self, base=None):
@@ -475,6 +546,9 @@ def ev(e, env, cx, k):
         if base in cx.consts and base not in env:
             ty, val = cx.consts[base]
             return k(Val(base, ty, val))
+        parts = n.split("::")
+        if len(parts) >= 2 and parts[-2] in ENUMS and parts[-1] in ENUMS[parts[-2]]:
+            return k(Val("%s_%s" % (parts[-2], parts[-1]), parts[-2]))
         raise TErr("unknown identifier %s" % n)
     if kind == "index":
         if e[2][0] == "range":
@@ -544,6 +618,13 @@ def ev(e, env, cx, k):
                 raise TErr("array length is not a constant")
             return k(Val("(repeat %s (Z.to_nat %s))" % (v.s, n.s), "[u8;%d]" % n.c))
         return ev_list([e[1], e[2]], env, cx, krep)
+    if kind == "vrepeat":
+        def kvrep(vs):
+            v, n = typed(vs[0], "u8", "vec! element"), typed(vs[1], "usize", "vec! length")
+            if v.c is None:
+                raise TErr("vec! element is not a constant")
+            return k(Val("(repeat %s (Z.to_nat %s))" % (v.s, n.s), "[u8]"))
+        return ev_list([e[1], e[2]], env, cx, kvrep)
     raise TErr("expression kind %s not supported here" % kind)
 
 
@@ -645,12 +726,14 @@ def ev_bin(e, env, cx, k):
             if va.c is None or vb.c is None:
                 # checked arithmetic: overflow is a panic (debug-build semantics; the equivalence lemmas
                 # carry the length bound that rules it out, so the wrapping release semantics agrees)
-                if t not in UNS or op == "*":
+                if t is None and (va.t in UNS or vb.t in UNS):
+                    t = va.t or vb.t
+                if t not in UNS:
                     raise TErr("`%s` on non-constant %s operands (overflow semantics not modelled)" % (op, t))
                 va2, vb2 = typed(va, t, op), typed(vb, t, op)
                 y = cx.fresh()
                 bound = {64: "two64", 32: "two32"}.get(UNS[t], str(2 ** UNS[t]))
-                test = "(%s <? %s)" % (y, bound) if op == "+" else "(0 <=? %s)" % y
+                test = "(%s <? %s)" % (y, bound) if op in ("+", "*") else "(0 <=? %s)" % y
                 return "(let %s := (%s %s %s) in (if %s then %s else Oob))" % (y, va2.s, op, vb2.s, test, k(Val(y, t)))
             c = va.c + vb.c if op == "+" else va.c - vb.c if op == "-" else va.c * vb.c
             if not fits(c, t or "usize"):
@@ -690,6 +773,12 @@ def ev_fcall(e, env, cx, k):
         return ev_list(arr[1], env, cx, kfb)
     if name == "new" and len(path) == 2 and path[0] in ("SmallVec", "Vec") and not args:
         return k(Val("(@nil Z)", "Vec<?>"))
+    if name == "from_vec" and len(path) == 2 and path[0] == "SmallVec" and len(args) == 1:
+        def kfv(v):
+            if not (is_bytes(v.t) or (v.t or "").startswith("Vec<")):
+                raise TErr("SmallVec::from_vec of %s" % v.t)
+            return k(v)
+        return ev(args[0], env, cx, kfv)
     if name in cx.registry and len(path) == 1:
         callee = cx.registry[name]
         if len(args) != len(callee["ptypes"]):
@@ -730,6 +819,18 @@ def ev_method(e, env, cx, k):
             a, b = ("true", "false") if name == "is_some" else ("false", "true")
             return k(Val("(match %s with Some _ => %s | None => %s end)" % (v.s, a, b), "bool"))
         return ev(recv, env, cx, kis)
+    if name in ("wrapping_add", "wrapping_sub") and len(args) == 1:
+        def kw(vs):
+            a, b = vs
+            t = a.t
+            if t not in UNS:
+                raise TErr("%s on %s (only typed unsigned integers)" % (name, t))
+            b = typed(b, t, name)
+            if not compat(b.t, t):
+                raise TErr("%s: %s vs %s" % (name, t, b.t))
+            bound = {64: "two64", 32: "two32"}.get(UNS[t], str(2 ** UNS[t]))
+            return k(Val("((%s %s %s) mod %s)" % (a.s, "+" if name == "wrapping_add" else "-", b.s, bound), t))
+        return ev_list([recv] + args, env, cx, kw)
     raise TErr("method %s not supported" % name)
 
 
@@ -745,6 +846,11 @@ def declared(stmts, acc=None):
         elif s[0] in ("expr", "tail") and s[1][0] == "if":
             declared(s[1][2], acc)
             declared(s[1][3], acc)
+        elif s[0] == "while":
+            declared(s[2], acc)
+        elif s[0] == "foreach":
+            acc.update(x for x in (s[1], s[2]) if x)
+            declared(s[4], acc)
     return acc
 
 
@@ -779,6 +885,9 @@ def walk_vars(x, acc):
 def assigned_in(stmts, acc):
     for s in stmts:
         if s[0] == "assign":
+            if s[1][0] == "index" and s[1][1][0] == "var" and s[1][2][0] != "range":
+                acc.append(s[1][1][1])
+                continue
             if s[1][0] != "var":
                 raise TErr("assignment target not a local")
             acc.append(s[1][1])
@@ -790,8 +899,10 @@ def assigned_in(stmts, acc):
         elif s[0] in ("expr", "tail") and s[1][0] == "if":
             assigned_in(s[1][2], acc)
             assigned_in(s[1][3], acc)
-        elif s[0] in ("while", "for"):
-            raise TErr("nested loop")
+        elif s[0] == "while":
+            assigned_in(s[2], acc)          # a nested loop: what it assigns is assigned by the enclosing body
+        elif s[0] in ("for", "foreach"):
+            assigned_in(s[4], acc)
         elif s[0] in ("let", "skip", "break", "exprstmt"):
             continue
         else:
@@ -803,10 +914,6 @@ def run_while(s, rest, env, cx):
     """`while c { body }`  ->  a fuelled Fixpoint over the locals the body assigns.
     fuel = S (total length of the byte-slice parameters); running out of fuel is [Fuel]."""
     _, cond, body = s
-    if cx.loop is not None:
-        raise TErr("nested loop")
-    if not cx.fuel_params:
-        raise TErr("while: no byte-slice parameter to bound the fuel")
     clash = declared(body) & set(env)
     if clash:
         raise TErr("while body shadows %s" % sorted(clash))
@@ -822,14 +929,16 @@ def run_while(s, rest, env, cx):
             raise TErr("while: %s is not a `let mut` local" % n)
     used = walk_vars([cond, body], [])
     inv = [n for n in env if not n.startswith("mut:") and n in used and n not in state]
-    name = "leaf_wire_%s_loop%d" % (cx.fn, len(cx.loops) + 1)
+    fuel0 = while_fuel(cond, state, env, cx)
+    cx.nloops += 1
+    name = "leaf_wire_%s_loop%d" % (cx.fn, cx.nloops)
     fuel = cx.fresh("fuel")
     benv = {}
     for n in inv + state:
         benv[n] = Val(mangle(n), env[n].t, None)
         benv["mut:" + n] = env.get("mut:" + n, False)
-    saved_ret = cx.ret
-    cx.loop = {"name": name, "inv": inv, "state": state, "fuel": fuel + "'"}
+    saved_ret, saved_loop = cx.ret, cx.loop
+    cx.loop = {"name": name, "inv": inv, "state": state, "rec": "%s %s'" % (name, fuel)}
     cx.ret = None
     try:
         def kc(v):
@@ -839,14 +948,13 @@ def run_while(s, rest, env, cx):
                                                      state_tuple(state, benv))
         step = ev(cond, benv, cx, kc)
     finally:
-        cx.loop = None
+        cx.loop = saved_loop
         cx.ret = saved_ret
     sig = " ".join("(%s : %s)" % (mangle(n), coq_type(env[n].t)) for n in inv + state)
     sty = " * ".join(coq_type(env[n].t) for n in state)
     cx.loops.append("Fixpoint %s (%s : nat) %s {struct %s} : res (%s) :=\n  match %s with\n  | O => Fuel\n  | S %s' =>\n    %s\n  end.\n"
                     % (name, fuel, sig, fuel, sty, fuel, fuel, step))
     # call site
-    fuel0 = "(S (%s))" % " + ".join("length %s" % p for p in cx.fuel_params)
     args = [env[n].s for n in inv] + [env[n].s for n in state]
     env2 = dict(env)
     news = []
@@ -855,6 +963,115 @@ def run_while(s, rest, env, cx):
         env2[n] = Val(cn, env[n].t)
         news.append(cn)
     call = "%s %s %s" % (name, fuel0, " ".join(args))
+    if len(news) == 1:
+        return "(%s <- %s ;; %s)" % (news[0], call, run(rest, env2, cx))
+    st = cx.fresh()
+    return "(%s <- %s ;; (let '(%s) := %s in %s))" % (st, call, ", ".join(news), st, run(rest, env2, cx))
+
+
+def conjuncts(e):
+    while e[0] == "paren":
+        e = e[1]
+    if e[0] == "bin" and e[1] == "&&":
+        return conjuncts(e[2]) + conjuncts(e[3])
+    return [e]
+
+
+def while_fuel(cond, state, env, cx):
+    """The fuel a `while` is started with (a nat).  It is only a guess the translator makes from the loop
+    condition -- nothing is trusted here: running out of fuel is [Fuel], and the equivalence lemma has to
+    show that it does not happen.
+      a conjunct `v.len() < K` / `v.len() <= K` (v a vector the body assigns, K a constant):
+                                  S (K - len v) resp. S (K + 1 - len v), evaluated at loop entry
+      otherwise:                  S (total length of the byte-slice parameters)"""
+    for c in conjuncts(cond):
+        if c[0] != "bin" or c[1] not in ("<", "<=", ">", ">="):
+            continue
+        op, a, b = c[1], c[2], c[3]
+        if op in (">", ">="):
+            op, a, b = {">": "<", ">=": "<="}[op], b, a
+        while a[0] == "paren":
+            a = a[1]
+        if not (a[0] == "call" and a[1] == "len" and not a[3] and a[2][0] == "var" and a[2][1] in state):
+            continue
+        v = env[a[2][1]]
+        if not ((v.t or "").startswith("Vec<") or is_bytes(v.t)):
+            continue
+        kc = ev_const_env(b, env, cx)
+        if kc is None or not (0 <= kc < 2 ** 32):
+            continue
+        return "(S (Z.to_nat (%d - (blen %s))))" % (kc + (1 if op == "<=" else 0), v.s)
+    if not cx.fuel_params:
+        raise TErr("while: nothing to bound the fuel with (no `v.len() < K` conjunct, no byte-slice parameter)")
+    return "(S (%s))" % " + ".join("length %s" % p for p in cx.fuel_params)
+
+
+def run_foreach(s, rest, env, cx):
+    """`for (i, &x) in v.iter().enumerate() { body }` / `for &x in v.iter() { body }`  ->  a Fixpoint by
+    structural recursion on the list v (no fuel), over the locals the body assigns; i counts from 0."""
+    _, ivar, xvar, coll, body = s
+    if coll[0] != "var" or coll[1] not in env:
+        raise TErr("for: the collection must be a parameter or a local")
+    cv = env[coll[1]]
+    if is_bytes(cv.t):
+        et = "u8"
+    elif (cv.t or "").startswith("Vec<") and cv.t[4:-1] in INTS:
+        et = cv.t[4:-1]
+    else:
+        raise TErr("for over a %s" % cv.t)
+    if env.get("mut:" + coll[1]) and coll[1] in assigned_in(body, []):
+        raise TErr("for: the body assigns the collection")
+    clash = (declared(body) | {x for x in (ivar, xvar) if x}) & set(env)
+    if clash:
+        raise TErr("for body shadows %s" % sorted(clash))
+    state = []
+    for n in assigned_in(body, []):
+        if n in env and n not in state:
+            state.append(n)
+    if not state:
+        raise TErr("for: the body assigns no outer local")
+    state = [n for n in env if n in state]
+    for n in state:
+        if not env.get("mut:" + n):
+            raise TErr("for: %s is not a `let mut` local" % n)
+    used = walk_vars([body], [])
+    inv = [n for n in env if not n.startswith("mut:") and n in used and n not in state]
+    cx.nloops += 1
+    name = "leaf_wire_%s_loop%d" % (cx.fn, cx.nloops)
+    lst = cx.fresh("items")
+    benv = {}
+    for n in inv + state:
+        benv[n] = Val(mangle(n), env[n].t, None)
+        benv["mut:" + n] = env.get("mut:" + n, False)
+    benv[xvar] = Val(mangle(xvar), et)
+    benv["mut:" + xvar] = False
+    rec = "%s %s'" % (name, lst)
+    isig = ""
+    if ivar:
+        benv[ivar] = Val(mangle(ivar), "usize")
+        benv["mut:" + ivar] = False
+        rec += " (%s + 1)" % mangle(ivar)          # the enumerate counter stays below the length: no overflow
+        isig = "(%s : Z) " % mangle(ivar)
+    saved_ret, saved_loop = cx.ret, cx.loop
+    cx.loop = {"name": name, "inv": inv, "state": state, "rec": rec}
+    cx.ret = None
+    try:
+        step = run(list(body) + [("loop_end",)], benv, cx)
+    finally:
+        cx.loop = saved_loop
+        cx.ret = saved_ret
+    sig = " ".join("(%s : %s)" % (mangle(n), coq_type(env[n].t)) for n in inv + state)
+    sty = " * ".join(coq_type(env[n].t) for n in state)
+    cx.loops.append("Fixpoint %s (%s : list Z) %s%s {struct %s} : res (%s) :=\n  match %s with\n  | nil => Ok %s\n  | cons %s %s' =>\n    %s\n  end.\n"
+                    % (name, lst, isig, sig, lst, sty, lst, state_tuple(state, benv), mangle(xvar), lst, step))
+    args = [env[n].s for n in inv] + [env[n].s for n in state]
+    env2 = dict(env)
+    news = []
+    for n in state:
+        cn = cx.fresh(mangle(n) + "_")
+        env2[n] = Val(cn, env[n].t)
+        news.append(cn)
+    call = "%s %s %s%s" % (name, cv.s, "0 " if ivar else "", " ".join(args))
     if len(news) == 1:
         return "(%s <- %s ;; %s)" % (news[0], call, run(rest, env2, cx))
     st = cx.fresh()
@@ -904,6 +1121,23 @@ def run(stmts, env, cx):
             env2["mut:" + name] = bool(mut)
             return "(let %s := %s in %s)" % (cn, v.s, run(rest, env2, cx))
         return ev(e, env, cx, klet)
+    if k == "assign" and s[1][0] == "index" and s[1][1][0] == "var" and s[1][2][0] != "range":
+        # d[i] = v   ==   d[i..i+1].copy_from_slice(&[v])   (i + 1 cannot wrap where the index is in range)
+        dst = s[1][1][1]
+        if dst not in env or not env.get("mut:" + dst) or not is_bytes(env[dst].t):
+            raise TErr("indexed assignment target must be a `let mut` byte array")
+        dv = env[dst]
+
+        def kia(vals):
+            i, v = typed(vals[0], "usize", "index"), typed(vals[1], "u8", "byte store")
+            if not compat(v.t, "u8"):
+                raise TErr("byte store of a %s" % v.t)
+            hi = str(i.c + 1) if i.c is not None else "(%s + 1)" % i.s
+            cn = cx.fresh(mangle(dst) + "_")
+            env2 = dict(env)
+            env2[dst] = Val(cn, dv.t)
+            return "(%s <- splice %s %s %s [%s] ;; %s)" % (cn, dv.s, i.s, hi, v.s, run(rest, env2, cx))
+        return ev_list([s[1][2], s[2]], env, cx, kia)
     if k == "assign":
         lhs = s[1]
         if lhs[0] != "var" or lhs[1] not in env or not env.get("mut:" + lhs[1]):
@@ -932,7 +1166,9 @@ def run(stmts, env, cx):
         e = s[1]
         if e[0] == "if":
             return run_if(e, rest, env, cx)
-        if e[0] in ("iflet", "match"):
+        if e[0] == "match":
+            return run_match(e, rest, env, cx)
+        if e[0] == "iflet":
             raise TErr("%s not supported" % e[0])
         if rest or cx.loop is not None:
             raise TErr("tail expression followed by statements")
@@ -977,6 +1213,12 @@ def run(stmts, env, cx):
                 env2[dst] = Val(cn, dv.t if et != "?" else "Vec<%s>" % (v2.t or "?"))
                 return "(let %s := (%s ++ [%s]) in %s)" % (cn, dv.s, v2.s, run(rest, env2, cx))
             return ev(e[3][0], env, cx, kp)
+        if (cx.slice_self and e[0] == "call" and e[2] == ("var", "self") and pure(e[3], cx)
+                and "self" not in walk_vars(e[3], [])):
+            ev_list(e[3], env, cx, lambda vals: "")          # the arguments must be translatable (and cannot fail: pure)
+            if e[1] not in cx.dropped:
+                cx.dropped.append(e[1])
+            return run(rest, env, cx)
         raise TErr("expression statement not supported (possible side effect)")
     if k == "break":
         if cx.loop is None:
@@ -985,9 +1227,11 @@ def run(stmts, env, cx):
     if k == "loop_end":
         lp = cx.loop
         args = [env[n].s for n in lp["inv"]] + [env[n].s for n in lp["state"]]
-        return "(%s %s %s)" % (lp["name"], lp["fuel"], " ".join(args))
+        return "(%s %s)" % (lp["rec"], " ".join(args))
     if k == "while":
         return run_while(s, rest, env, cx)
+    if k == "foreach":
+        return run_foreach(s, rest, env, cx)
     if k == "for":
         _, var, lo_e, hi_e, body = s
         lo, hi = ev_const_env(lo_e, env, cx), ev_const_env(hi_e, env, cx)
@@ -1019,6 +1263,57 @@ def ev_const_env(e, env, cx):
     except TErr:
         return None
     return out[0] if out and pure(e, cx) else None
+
+
+def run_match(e, rest, env, cx):
+    """match <Option<int>> { Some(CONST) => {..} .. None => {..} _ => {..} }: arms in order, `_` last"""
+    _, scrut, arms = e
+    bodies = [b for _, b in arms]
+    clash = set().union(*[declared(b) for b in bodies]) & set(env) if rest else set()
+    if clash:
+        raise TErr("match arm shadows %s" % sorted(clash))
+
+    def km(v):
+        if not (v.t and v.t.startswith("Option<") and v.t[7:-1] in INTS):
+            raise TErr("match on %s (only Option<integer>)" % v.t)
+        it = v.t[7:-1]
+        somes, none_arm, default = [], None, None
+        for idx, (pat, body) in enumerate(arms):
+            if default is not None:
+                raise TErr("match: an arm after `_`")
+            if pat == "_":
+                default = body
+                continue
+            if pat == "None":
+                if none_arm is not None:
+                    raise TErr("match: two None arms")
+                none_arm = body
+                continue
+            m = re.match(r"Some\((.+)\)$", pat)
+            if not m:
+                raise TErr("match pattern %s" % pat)
+            inner = m.group(1)
+            base = inner.split("::")[-1]
+            if re.match(r"(0x[0-9a-fA-F_]+|\d[\d_]*)(%s)?$" % _SUF, inner):
+                c, suf = parse_num(inner)
+                cv = typed(Val(str(c), suf, c), it, "match pattern")
+            elif base in cx.consts and base not in env:
+                ty, val = cx.consts[base]
+                cv = typed(Val(base, ty, val), it, "match pattern")
+            else:
+                raise TErr("match pattern %s (only Some(CONST), None, _)" % pat)
+            somes.append((cv, body))
+        if default is None:
+            raise TErr("match without a `_` arm")
+        y = cx.fresh()
+
+        def arm(body):
+            return run(list(body) + list(rest), env, cx)
+        chain = arm(default)
+        for cv, body in reversed(somes):
+            chain = "(if (%s =? %s) then %s else %s)" % (y, cv.s, arm(body), chain)
+        return "(match %s with Some %s => %s | None => %s end)" % (v.s, y, chain, arm(none_arm if none_arm is not None else default))
+    return ev(scrut, env, cx, km)
 
 
 def run_if(e, rest, env, cx):
@@ -1074,14 +1369,17 @@ def struct_decls(src):
     return out
 
 
-def translate(fn, src, structs, consts, registry, rel=""):
-    params, ret, body = find_fn(src, None, fn)
+def translate(fn, src, structs, consts, registry, rel="", impl=None):
+    params, ret, body = find_fn(src, impl, fn)
     cx = Cx(structs, consts, registry)
     cx.fn = fn
+    cx.slice_self = impl is not None
     toks = tokenize(body)
     cx.used |= {v for k, v in toks if k == "id"}
     env, sig, ptypes = {}, [], []
     for p in split_params(params):
+        if impl is not None and re.match(r"&\s*(mut\s+)?self$", p):
+            continue
         if ":" not in p or "self" in p.split(":")[0]:
             raise TErr("parameter %s" % p)
         nm, ty = [x.strip() for x in p.split(":", 1)]
@@ -1103,7 +1401,9 @@ def translate(fn, src, structs, consts, registry, rel=""):
     stmts = WP(toks).block_from_start()
     expr = run(stmts, env, cx)
     rty = "res (%s)" % (coq_type(cx.ret) if cx.ret else "unit")
-    doc = "(* %s :: fn %s(%s)%s *)" % (PROTO + rel, fn, " ".join(params.split()), (" -> " + ret) if ret else "")
+    doc = "(* %s :: fn %s(%s)%s *)" % (rel if impl else PROTO + rel, fn, " ".join(params.split()), (" -> " + ret) if ret else "")
+    if cx.dropped:
+        doc += "\n(* return-value slice: dropped `self.%s(..);` *)" % "(..);`, `self.".join(cx.dropped)
     text = "%s\n%sDefinition leaf_wire_%s %s : %s :=\n  %s.\n" % (doc, "".join(l + "\n" for l in cx.loops), fn,
                                                                 " ".join(sig), rty, expr)
     registry[fn] = {"ptypes": ptypes, "ret": cx.ret}
@@ -1147,6 +1447,25 @@ def main():
             defs.append(d)
             meta[name] = m
         except (TErr, IndexError, KeyError, ValueError, TypeError, RecursionError) as e:
+            failed[name] = "%s: %s" % (type(e).__name__, e)
+            defs.append("(* leaf_wire_%s: NOT TRANSLATED (%s) *)\n" % (fn, str(e).replace("*)", "* )").replace("(*", "( *")))
+    for fn, path, impl in SLICE_FUNCS:
+        name = "wire_" + fn
+        try:
+            src = strip_comments(open(os.path.join(REPO, path)).read())
+            edefs = []
+            for m in re.finditer(r"enum\s+(\w+)\s*\{([^{}()]*)\}", src):
+                vs = [x.strip() for x in m.group(2).split(",") if x.strip()]
+                if vs and all(re.match(r"[A-Z]\w*$", x) for x in vs) and m.group(1) not in ENUMS:
+                    ENUMS[m.group(1)] = vs
+                    edefs.append("(* %s :: enum %s *)\n%s" % (path, m.group(1), "".join(
+                        "Definition %s_%s : Z := %d.\n" % (m.group(1), x, i) for i, x in enumerate(vs))))
+            d, m = translate(fn, src, structs, consts, registry, path, impl)
+            m["file"] = path
+            defs.extend(edefs)
+            defs.append(d)
+            meta[name] = m
+        except (TErr, IndexError, KeyError, ValueError, TypeError, RecursionError, OSError) as e:
             failed[name] = "%s: %s" % (type(e).__name__, e)
             defs.append("(* leaf_wire_%s: NOT TRANSLATED (%s) *)\n" % (fn, str(e).replace("*)", "* )").replace("(*", "( *")))
     hdr = ("(* GENERATED by tools/gen_wire.py from the Rust sources under %s on every run. Do not edit. *)\n"
